@@ -270,12 +270,19 @@ func c11SpareLoc(r *rand.Rand, l gts.Location) gts.Location {
 // c11SpareProps builds qualifiers whose outer slice and value slices have
 // spare capacity with guard entries beyond len.
 func c11SpareProps(r *rand.Rand, label string) gts.Props {
+	return c11SparePropsKind(r, label, r.Intn(5))
+}
+
+// c11SparePropsKind: kind 5 is the qualifier set of a source feature.
+func c11SparePropsKind(r *rand.Rand, label string, kind int) gts.Props {
 	type kv struct {
 		k  string
 		vv []string
 	}
 	items := []kv{{"label", []string{label}}}
-	switch r.Intn(5) {
+	switch kind {
+	case 5:
+		items = append(items, kv{"organism", []string{"synthetic construct " + label}}, kv{"mol_type", []string{"genomic DNA"}}, kv{"db_xref", []string{"taxon:" + label}})
 	case 4:
 		// the qualifier set of a coding sequence as databases write it, the
 		// translation not in last place.
@@ -320,6 +327,9 @@ func c11Features(r *rand.Rand, n, fit int, prefix string, noJoin bool, sharedPro
 		}
 		loc := c11SpareLoc(r, gen.RandLoc(r, o))
 		props := c11SpareProps(r, fmt.Sprintf("%s%d", prefix, i))
+		if key == "source" && r.Intn(2) == 0 {
+			props = c11SparePropsKind(r, fmt.Sprintf("%s%d", prefix, i), 5)
+		}
 		switch {
 		case i == 0 && sharedProps != nil:
 			props = sharedProps
